@@ -112,6 +112,73 @@ def q_postprocess(vm, P):
     vm.check(BOOL(len(r.items) == len(keep) and all(a is b for a, b in zip(r.items, keep))), "pairs that failed the gate are removed before voting, order kept")
 
 
+GATE_REPLAY = r'''
+use similari::track::{MetricQuery, Observation, ObservationAttributes, ObservationMetric, ObservationMetricOk};
+use similari::trackers::kalman_prediction::TrackAttributesKalmanPrediction;
+use similari::trackers::sort::metric::SortMetric;
+use similari::trackers::sort::{PositionalMetricType, SortAttributes, SortAttributesOptions};
+use similari::trackers::spatio_temporal_constraints::SpatioTemporalConstraints;
+use similari::utils::bbox::Universal2DBox;
+use similari::utils::kalman::kalman_2d_box::Universal2DBoxKalmanFilter;
+use std::sync::Arc;
+
+#[test]
+fn replay() {
+    let (conf, minc, thr): (f32, f32, f32) = (%(conf)s, %(minc)s, %(thr)s);
+    let iou_wanted: f32 = %(iou)s;
+    let opts = Arc::new(SortAttributesOptions::new(None, 5, 1, SpatioTemporalConstraints::default(), 1.0 / 20.0, 1.0 / 160.0));
+    // candidate boxes shifted along x so that the IoU with the track box sweeps [0,1] and hits the counterexample's value
+    let dx0 = 10.0 * (1.0 - iou_wanted) / (1.0 + iou_wanted);
+    for dx in [dx0, 0.0, 0.5, 2.0, 5.0, 9.0, 9.9, 12.0, 40.0] {
+        let track_box = Universal2DBox::ltwh(0.0, 0.0, 10.0, 10.0);
+        let mut cand = Universal2DBox::ltwh(dx, 0.0, 10.0, 10.0);
+        cand.confidence = conf;
+        let mut ta = SortAttributes::new(opts.clone());
+        ta.make_prediction(&track_box);
+        let co = Observation::new(Some(cand.clone()), None);
+        let to = Observation::new(Some(track_box.clone()), None);
+        let mq = MetricQuery { feature_class: 0, candidate_attrs: &ta, candidate_observation: &co, track_attrs: &ta, track_observation: &to };
+        let c = if conf < minc { minc } else { conf };
+        for maha in [false, true] {
+            if maha && !(c > 0.0) { continue; }
+            let m = SortMetric::new(if maha { PositionalMetricType::Mahalanobis } else { PositionalMetricType::IoU(thr) }, minc);
+            let r = m.metric(&mq);
+            if Universal2DBox::too_far(&cand, &track_box) {
+                assert!(r.is_none(), "no result when the bounding circles do not reach");
+                continue;
+            }
+            let (am, fd) = r.expect("a reachable pair yields a result");
+            assert!(fd.is_none(), "positional metric carries no feature distance");
+            if maha {
+                let f = Universal2DBoxKalmanFilter::new(ta.get_position_weight(), ta.get_velocity_weight());
+                let d = f.distance(ta.get_state().unwrap(), &cand);
+                let cost = if d > 11.070 { 0.0 } else { 100.0 - d };
+                assert_eq!(am, Some(cost / c), "Mahalanobis weight = inverted 95%% chi-square cost / max(confidence, min_confidence) (dx {})", dx);
+            } else {
+                let iou = Universal2DBox::calculate_metric_object(&Some(&cand), &Some(&track_box));
+                let expect = iou.map(|e| e * c).filter(|e| *e >= thr);
+                assert_eq!(am, expect, "IoU gate: IoU x max(confidence, min_confidence) >= threshold (dx {}, iou {:?})", dx, iou);
+            }
+        }
+    }
+    // postprocess_distances drops the pairs that failed the gate, keeps the order
+    let m = SortMetric::new(PositionalMetricType::IoU(thr), minc);
+    let items = vec![ObservationMetricOk::<Universal2DBox>::new(1, 10, Some(0.5), None), ObservationMetricOk::new(2, 11, None, None), ObservationMetricOk::new(3, 12, Some(0.25), None)];
+    let out = m.postprocess_distances(items);
+    assert_eq!(out.iter().map(|e| (e.from, e.to)).collect::<Vec<_>>(), vec![(1, 10), (3, 12)]);
+}
+'''
+
+
+def _replay_gate(cex, v, vm):
+    def g(n, dflt):
+        try:
+            return rust_f32(cex_get(cex, n))
+        except KeyError:
+            return dflt
+    return GATE_REPLAY % dict(conf=g('conf', '0.5f32'), minc=g('min_conf', '0.05f32'), thr=g('threshold', '0.3f32'), iou=g('iou', '0.5f32'))
+
+
 # ------------------------------------------------------------------ assignment
 F32_MULT = 1000000.0
 GRID = [0.0, 0.1, 0.25, 0.3, 0.35, 0.5, 0.7, 0.9]
@@ -278,10 +345,10 @@ SM = "similari::trackers::sort::metric::SortMetric::"
 SV = "similari::trackers::sort::voting::SortVoting::winners"
 MIR = [
     MQ("c02_gate_iou", "quick", _mk_gate('iou'), "SortMetric::metric (IoU): gated in iff IoU x max(conf, min_conf) >= threshold; None iff too_far",
-       "all f32 IoU/confidence/min_confidence/threshold in [0,1]; too_far, IoU value uninterpreted", [SM + "metric"], spec_calls=_gate_calls),
+       "all f32 IoU/confidence/min_confidence/threshold in [0,1]; too_far, IoU value uninterpreted", [SM + "metric"], spec_calls=_gate_calls, replay=_replay_gate),
     MQ("c02_gate_mahalanobis", "quick", _mk_gate('maha'), "SortMetric::metric (Mahalanobis): weight = inverted 95% chi-square cost / max(conf, min_conf); None iff too_far",
-       "all non-NaN f32 distance >= 0, confidences in (0,1]", [SM + "metric", "similari::utils::kalman::kalman_2d_box::Universal2DBoxKalmanFilter::calculate_cost"], spec_calls=_gate_calls),
-    MQ("c02_postprocess", "quick", q_postprocess, "postprocess_distances drops the pairs that failed the gate", "3 results, each with/without weight", [SM + "postprocess_distances"]),
+       "all non-NaN f32 distance >= 0, confidences in (0,1]", [SM + "metric", "similari::utils::kalman::kalman_2d_box::Universal2DBoxKalmanFilter::calculate_cost"], spec_calls=_gate_calls, replay=_replay_gate),
+    MQ("c02_postprocess", "quick", q_postprocess, "postprocess_distances drops the pairs that failed the gate", "3 results, each with/without weight", [SM + "postprocess_distances"], replay=_replay_gate),
 ]
 for (nc, nt, nr, ex, tier) in [(1, 1, 1, 0, 'quick'), (1, 2, 2, 0, 'quick'), (2, 1, 2, 0, 'quick'), (2, 2, 2, 0, 'quick'), (2, 2, 3, 0, 'quick'),
                                (2, 2, 3, 2, 'quick'), (2, 2, 4, 0, 'thorough'), (3, 2, 3, 0, 'thorough'), (2, 3, 3, 0, 'thorough')]:
